@@ -49,3 +49,7 @@ def run(rep: Report, repo: Repo, tier: str) -> None:
     # "exactly one .rst per processed file ... plus one index.rst per processed directory": the two name spaces are disjoint
     with rep.isolated():
         fsrules.rule_index_name_collision(rep, repo, "C13-R12")
+    # "only with -r": the recursive switch in effect is the layered one (no CLI default shadows a settings file)
+    from .c16 import rule_cli_defaults
+    with rep.isolated():
+        rule_cli_defaults(rep, repo, "C13-R13")
